@@ -10,12 +10,27 @@
 #include "avtp/Byteorder.h"
 #define CAT2(a, b) a##b
 #define CAT(a, b) CAT2(a, b)
-#define W(name, T) T CAT(PFX, name)(T x) { return Avtp_##name(x); }
-W(Bswap16, uint16_t) W(Bswap32, uint32_t) W(Bswap64, uint64_t)
-W(CpuToLe16, uint16_t) W(CpuToLe32, uint32_t) W(CpuToLe64, uint64_t)
-W(CpuToBe16, uint16_t) W(CpuToBe32, uint32_t) W(CpuToBe64, uint64_t)
-W(LeToCpu16, uint16_t) W(LeToCpu32, uint32_t) W(LeToCpu64, uint64_t)
-W(BeToCpu16, uint16_t) W(BeToCpu32, uint32_t) W(BeToCpu64, uint64_t)
+/* every wrapper counts how often its argument expression is evaluated by the call: exactly once for a function; a
+ * function-like macro of the same name that mentions its operand several times evaluates it several times */
+#define HELPERS(W) \
+    W(Bswap16, uint16_t) W(Bswap32, uint32_t) W(Bswap64, uint64_t) \
+    W(CpuToLe16, uint16_t) W(CpuToLe32, uint32_t) W(CpuToLe64, uint64_t) \
+    W(CpuToBe16, uint16_t) W(CpuToBe32, uint32_t) W(CpuToBe64, uint64_t) \
+    W(LeToCpu16, uint16_t) W(LeToCpu32, uint32_t) W(LeToCpu64, uint64_t) \
+    W(BeToCpu16, uint16_t) W(BeToCpu32, uint32_t) W(BeToCpu64, uint64_t)
+#define W(name, T) static unsigned ae_##name = 1; T CAT(PFX, name)(T x) { unsigned ae = 0; T r = Avtp_##name((ae++, x)); if (ae != 1) ae_##name = ae; return r; }
+HELPERS(W)
+#undef W
+/* returns the evaluation count of helper idx (1 when it always was 1) and its name; 0 past the end */
+unsigned CAT(PFX, argevals)(unsigned idx, const char** name)
+{
+#define W(nm, T) { #nm, &ae_##nm },
+    static const struct { const char* n; unsigned* c; } t[] = { HELPERS(W) };
+#undef W
+    if (idx >= sizeof t / sizeof t[0]) return 0;
+    *name = t[idx].n;
+    return *t[idx].c ? *t[idx].c : 99;
+}
 int CAT(PFX, selected_big_endian)(void)
 {
 #if (__BYTE_ORDER__ == __ORDER_LITTLE_ENDIAN__)
